@@ -7,8 +7,12 @@ MODULE = "StorageModel.Properties.C02"
 THEOREMS = ["paging_facts_expected", "comparator_strict_total", "order_closed_form", "order_lexicographic",
             "ties_broken_by_id", "nulls_first_ascending", "count_exact_any_comparator", "sort_characterised", "k_smallest_stream",
             "set_paging_exact", "set_paging_idempotent", "index_scan_exact", "sorting_scan_exact", "query_ids_exact",
-            "cursor_provider_exact", "paging_tokens_exact", "strategy_independent", "count_exact", "cursor_iter_exact", "cursor_seek_exact", "pinned_arithmetic_violates"]
-TABLE = ["paging_facts_expected (Generated/PagingFacts.lean: shape of setPaging, of maxResults := targetOffset + targetLimit with its overflow guard, and of the eviction test, regenerated from boltz/query_scanners.go)"]
+            "cursor_provider_exact", "paging_tokens_exact", "strategy_independent", "count_exact", "cursor_iter_exact", "cursor_seek_exact", "pinned_arithmetic_violates",
+            "coerced_keys", "int_float_key_not_nan", "float_comparator_facts_expected", "float_comparator_total", "nan_sorts_first", "int_float_key_monotone",
+            "cursor_provider_exact_all", "iterator_all_of_exact", "iterator_any_of_exact", "cursor_scanner_exact",
+            "sort_accepted_iff", "sort_field_error_exact", "dotted_sort_field_refused", "sorting_scan_error_exact", "id_first_exact", "llrb_insert_is_sorted_insert"]
+TABLE = ["paging_facts_expected (Generated/PagingFacts.lean: shape of setPaging, of maxResults := targetOffset + targetLimit with its overflow guard, and of the eviction test, regenerated from boltz/query_scanners.go)",
+         "float_comparator_facts_expected (Generated/PagingFacts.lean: branch chain of float64SymbolComparator.Compare incl. the NaN branch, regenerated from boltz/query_sort.go)"]
 
 
 def _f(case):
@@ -74,8 +78,8 @@ def candidates(case):
         out.append(" ".join(g))
     if len(f) > 8 and f[8] != "root":
         put(8, "root")
-    if f[6] != "-":
-        put(6, "-")
+    for v in flow.prov_variants(f[6]):
+        put(6, v)
     if f[7] != "-":
         put(7, "-")
     if f[2] != "true":
@@ -93,26 +97,32 @@ def candidates(case):
 
 MATCHERS = {}
 
-RULE = ("160 (quick) / 1200 (thorough) random datasets of 0-7 rows over tiny value pools (nulls, ties, empty string, "
-        "-0.0/+0.0, +-Inf, min/max int64, int32 stored under an int64 symbol, equal instants) x 60/80 queries each: "
-        "filter in {true, one comparison, = null, != null}, 0-6 sort fields in either direction with or without the "
+RULE = ("300 (quick) / 3000 (thorough) random datasets of 0-7 rows over tiny value pools (nulls, ties, empty string, "
+        "-0.0/+0.0, +-Inf, NaN (two bit patterns), min/max int64, int32 stored under an int64 symbol, equal instants; every row has an fk owner or none) x 80/100 "
+        "queries each: filter in {true, one comparison, = null, != null}, 0-6 sort fields in either direction with or without the "
         "ASC keyword, skip and limit from {absent, none, min64, -5, -1, 0, 1, 2, n-1, n, n+1, 2n, max64-1, max64} plus "
-        "non-integer / out-of-range numbers, optional IteratorMatchingAllOf/AnyOf cursor provider, optional Seek key, run against the root store, its plain child store (rows without child data are skipped by the scanners) or its extended child store; "
-        "plus the no-bucket and empty-bucket stores; thorough adds every skip x limit pool pair x 14 sort specs on "
-        "datasets of 0..6 rows. Each case runs QueryIds, QueryIdsC twice on one query object (+ the skip/limit left in "
-        "it), QueryWithCursorC (bucket cursor and index provider), IterateIds drained, and Seek on the unpaged cursor. "
-        "non-trivial = at least two rows match and a sort field, skip or limit is present; distinct = (dataset, filter, "
-        "sort, skip, limit, provider)")
+        "non-integer / out-of-range numbers, cursor provider in {none, IteratorMatchingAllOf/AnyOf with 0-4 values incl. duplicates and "
+        "unknown values, OpenValueCursor, GetRelatedEntitiesCursor of an owner (fk back-references), nil}, optional Seek key, run against "
+        "the root store, its plain child store or its extended child store; plus the no-bucket and empty-bucket stores; "
+        "+ 160/2400 datasets whose stored types differ from the symbol types (one focus column filled with one or two foreign kinds: "
+        "ints incl. 2^53+1, 2^24+1, min/max under a float64 or string symbol, floats incl. 5e-324, 1e21, NaN, bools, times) x 25/30 queries; "
+        "+ 60/600 datasets x 30 queries over sort fields the parser resolves but the comparator may refuse (tags.k, owner.label, owner.id, owner, "
+        "an AnyType symbol, the child stores' own symbol, set symbols and unknown names through a foreign symbol table); thorough adds every skip x "
+        "limit pool pair x 14 sort specs on datasets of 0..6 rows. Each case runs QueryIds, QueryIdsC twice on one query object (+ the "
+        "skip/limit left in it), QueryWithCursorC (bucket cursor and the provider), IterateIds drained, Seek on the unpaged cursor, the sub-query "
+        "cursor scanner of the owner's things, and QueryIdsC with a foreign-parsed query. non-trivial = at least two rows match and a sort field, "
+        "skip or limit is present; distinct = (dataset, filter, sort, skip, limit, provider, store)")
 
 
 def run(ctx, replay_cases=None):
     ctx.assumptions += [
-        "bbolt yields the keys of the entities bucket and of a set-index value bucket in ascending byte order, descending for the reverse cursor (hypothesis BucketOrdered; exercised by every case)",
-        "the biogo llrb tree behaves as a strictly sorted list with replace-on-equal Insert and DeleteMax = drop the last element (exercised by every sorted case)",
-        "no float64 sort key is NaN (hypothesis NoNaNKeys; the generator keeps NaN out of the data)",
+        "bbolt yields the keys of the entities bucket, of a set-index value bucket and of a list bucket in ascending byte order, descending for the reverse cursor (hypotheses BucketOrdered, IndexesMirror; exercised by every case)",
+        "the set index and the fk back-reference lists mirror the entities (IndexesMirror; that the code keeps them so is C03 / C04)",
+        "the biogo llrb tree: Insert = sorted-list insertion is proved for the node-by-node port (llrb_insert_is_sorted_insert); DeleteMax = drop the last element is compared on every case between the port and the list model (MODEL-SPLIT marker), not proved",
+        "strconv.FormatFloat(x,'f',-1,64) of a float64-stored value read through a string symbol is data supplied with the value by the harness (computed with strconv outside /repo)",
         "fewer than 2^63 rows (the counters are int64; hypothesis of every scan theorem)",
         "filter semantics are those of the small fragment in Query/Filter.lean (true, one typed comparison, = null, != null); the filter language as a whole is C01's",
-        "Go's < on float64 agrees with the integer image of the bit pattern used in the model (exercised with -0.0, +0.0, +-Inf and ties)",
+        "Go's <, > and x != x on float64 agree with the integer image / NaN test of the bit pattern used in the model (exercised with -0.0, +0.0, +-Inf, NaN and ties)",
     ]
     return flow.flow(ctx, "c02", MODULE, THEOREMS, MATCHERS, nontrivial, describe, RULE, histogram, candidates,
                      table_obligations=TABLE, replay_cases=replay_cases)
